@@ -8,6 +8,7 @@ program list with ONE flusher thread (the forwarder owns `FlushState` by `&mut`)
 threads and EVERY schedule.
 -/
 import MetricsVerif.Proofs.StatsdAgg
+import MetricsVerif.Proofs.StatsdAbs
 import MetricsVerif.Props.C10Hist
 import MetricsVerif.Generated.SourceFacts
 
@@ -318,6 +319,115 @@ two stores loads the OLD `current` and swaps `last`, computing a wrapped delta o
 theorem first_absolute_races_flush :
     let s := run (init false [[.abs 10], [.flush]]) [0, 1, 0, 0, 1, 1, 1, 0, 0]
     s.outcomes = [(M - 10, true)] := by decide
+
+/-! ### absolute-only counters racing the flusher: exact OUTSIDE the K-C10-abs-race window
+
+ONE updater thread (thread 0) calling `absolute` with non-decreasing values (`AbsNondec 0 prog`: absolute calls only,
+values non-decreasing and below 2^64), ONE flusher (thread 1, `AllFlush fl`), EVERY schedule without a window step
+(`absRaceCount … = 0`, Model/StatsdAgg.lean: no flush's (load `current`, swap `last`) pair overlaps the (`last` store,
+`current` store) pair of the `absolute` that switches the counter into absolute mode).  Unlike the increment
+identities these are exact in ℕ, not modulo 2^64: no delta wraps. -/
+
+theorem le_sum_of_mem (l : List (Nat × Bool)) (o : Nat × Bool) (h : o ∈ l) : o.1 ≤ (l.map (·.1)).sum := by
+  induction l with
+  | nil => cases h
+  | cons x r ih =>
+    simp only [List.mem_cons] at h
+    simp only [List.map_cons, List.sum_cons]
+    rcases h with rfl | h
+    · omega
+    · have := ih h; omega
+
+theorem AInv_bounds {prog : List Call} {s : Sys} {mid : Bool} (h : AInv prog s mid) :
+    Dall s ≤ s.current ∧ s.current < M := by
+  obtain ⟨tu, tf, _, _, hph⟩ := h
+  rcases hph with ⟨_, h0⟩ | ⟨_, h1⟩ | ⟨_, h2⟩
+  · rw [h0.d, h0.cur]; exact ⟨Nat.le_refl _, M_pos⟩
+  · rw [h1.d, h1.cur]; exact ⟨Nat.le_refl _, M_pos⟩
+  · refine ⟨?_, h2.curlt⟩
+    have hf := h2.fl
+    unfold FlRel at hf
+    cases hp : tf.pc <;> simp only [hp] at hf <;> omega
+
+/-- **no wrapped delta outside the window**: every delta any flush computed is at most the value `current` holds
+    (one of the values passed to `absolute`, or 0), in every schedule without a window step — "no single delta
+    exceeds what was actually added".  (Inside the window a flush sends about 2^64: `first_absolute_races_flush`.) -/
+theorem abs_no_wrapped_delta_outside_window (prog fl : List Call) (hnd : AbsNondec 0 prog) (hfl : AllFlush fl)
+    (sched : List Nat) (hw : absRaceCount (init false [prog, fl]) false sched = 0) :
+    let s := run (init false [prog, fl]) sched
+    s.current < M ∧ ∀ o ∈ s.outcomes, o.1 ≤ s.current := by
+  intro s
+  obtain ⟨mid, h⟩ := abs_reachable prog fl hnd hfl sched hw
+  have hb := AInv_bounds h
+  refine ⟨hb.2, fun o ho => ?_⟩
+  have := le_sum_of_mem _ o ho
+  unfold Dall at hb
+  exact Nat.le_trans this hb.1
+
+/-- **the deltas sent add up to (value at the last flush) − (first value), exactly, outside the window**: whenever
+    the flusher is between two flushes, either nothing has been stored into `current` yet and every delta sent was 0,
+    or (sum of the deltas written) + (first absolute value) = `last` (the value the latest flush loaded) ≤ `current`;
+    what is missing, `current − last`, is what the next flush computes. -/
+theorem abs_deltas_sum_outside_window (prog fl : List Call) (hnd : AbsNondec 0 prog) (hfl : AllFlush fl)
+    (sched : List Nat) (hw : absRaceCount (init false [prog, fl]) false sched = 0)
+    (hr : FlusherResting 1 (run (init false [prog, fl]) sched)) :
+    let s := run (init false [prog, fl]) sched
+    (s.current = 0 ∧ sentSum s = 0) ∨ (sentSum s + firstVal prog = s.last ∧ s.last ≤ s.current) := by
+  intro s
+  obtain ⟨mid, tu, tf, hthr, hc, hph⟩ := abs_reachable prog fl hnd hfl sched hw
+  have hs : sentSum s = Dall s := sum_sent_eq_all _ hc.rule
+  have hrest := hr tf (by show s.threads[1]? = some tf; rw [hthr]; rfl)
+  rw [hs]
+  rcases hph with ⟨_, h0⟩ | ⟨_, h1⟩ | ⟨_, h2⟩
+  · exact Or.inl ⟨h0.cur, h0.d⟩
+  · exact Or.inl ⟨h1.cur, h1.d⟩
+  · exact Or.inr ((FlRel.plain hrest.1 hrest.2).mp h2.fl)
+
+/-- the same once every call has finished (`v1` = the first absolute value): the deltas sent add up to the value the
+    last flush saw minus the first value -/
+theorem abs_deltas_sum_at_quiescence (v1 : Nat) (rest fl : List Call) (hnd : AbsNondec 0 (.abs v1 :: rest))
+    (hfl : AllFlush fl) (sched : List Nat) (hw : absRaceCount (init false [.abs v1 :: rest, fl]) false sched = 0)
+    (hq : ∀ t ∈ (run (init false [.abs v1 :: rest, fl]) sched).threads, t.pc = .done) :
+    let s := run (init false [.abs v1 :: rest, fl]) sched
+    sentSum s + v1 = s.last ∧ s.last ≤ s.current ∧ s.current < M := by
+  intro s
+  obtain ⟨mid, tu, tf, hthr, hc, hph⟩ := abs_reachable _ fl hnd hfl sched hw
+  have hs : sentSum s = Dall s := sum_sent_eq_all _ hc.rule
+  have hu : tu.pc = .done := hq tu (by show tu ∈ s.threads; rw [hthr]; simp)
+  have hf : tf.pc = .done := hq tf (by show tf ∈ s.threads; rw [hthr]; simp)
+  rw [hs]
+  rcases hph with ⟨_, h0⟩ | ⟨_, h1⟩ | ⟨_, h2⟩
+  · have := hc.udone hu
+    rw [h0.calls] at this; cases this
+  · rw [h1.pc] at hu; cases hu
+  · have := (FlRel.plain (by rw [hf]; simp) (by rw [hf]; simp)).mp h2.fl
+    exact ⟨this.1, this.2, h2.curlt⟩
+
+/-- the window predicate flags the known finding and nothing before it: the schedule of `first_absolute_races_flush`
+    contains exactly ONE window step (the flusher's load of `current`, taken while the updater sits between its `last`
+    store and its `current` store), so the hypothesis of the three theorems above is needed; the corpus schedule of
+    the harness with two absolutes and two flushes contains none -/
+theorem first_absolute_race_is_window :
+    absRaceCount (init false [[.abs 10], [.flush]]) false [0, 1, 0, 0, 1, 1, 1, 0, 0] = 1
+    ∧ absRaceCount (init false [[.abs 10], [.flush]]) false [0, 1, 0, 0] = 0
+    ∧ absRaceCount (init false [[.abs 10, .abs 25], [.flush, .flush]]) false
+        [0, 1, 0, 0, 0, 0, 1, 1, 1, 0, 0, 0, 1, 1, 1] = 0 := by decide
+
+/-- the other way into the window: the `last` store lands between a flush's load and its swap -/
+theorem first_absolute_race_other_entry :
+    let sched := [0, 1, 0, 1, 0, 1, 1, 0, 0]
+    absRaceCount (init false [[.abs 10], [.flush]]) false sched = 1
+    ∧ (run (init false [[.abs 10], [.flush]]) sched).outcomes = [(M - 10, true)] := by decide
+
+/-- non-vacuity: a flush loads between two absolutes, another one after the last; no window step; the deltas are
+    10 − 10 and 25 − 10 -/
+example :
+    let progs : List (List Call) := [[.abs 10, .abs 25], [.flush, .flush]]
+    let sched := [0, 1, 0, 0, 0, 0, 1, 1, 1, 0, 0, 0, 1, 1, 1]
+    let s := run (init false progs) sched
+    AbsNondec 0 [.abs 10, .abs 25] ∧ absRaceCount (init false progs) false sched = 0
+    ∧ (∀ t ∈ s.threads, t.pc = .done) ∧ sent s = [0, 15] ∧ s.last = 25 := by
+  refine ⟨⟨by omega, by decide, by omega, by decide, trivial⟩, by decide, by decide, by decide, by decide⟩
 
 /-! ### non-vacuity -/
 
